@@ -104,6 +104,7 @@ def exercise(ctx):
                 s = SCSI(dev, 512)
                 s.testunitready()
                 s(dev)
+                ctx.count("exercise_attaches_ok")
             except Exception:  # noqa: BLE001
                 pass
             ctx.count("exercise_attaches")
@@ -118,6 +119,7 @@ def exercise(ctx):
                     continue
                 try:
                     c.load()(oc, **harness.call_kwargs(c, DO.fresh(a) if c.custom else a))
+                    ctx.count("exercise_constructions_ok")
                 except Exception:  # noqa: BLE001
                     ctx.count("exercise_constructions_refused")
                 ctx.count("exercise_constructions")
@@ -125,6 +127,7 @@ def exercise(ctx):
                 dev = harness.Recorder(enum)
                 try:
                     harness.facade_call(c, harness.make_facade(dev), DO.fresh(a) if c.custom else dict(a))
+                    ctx.count("exercise_facade_calls_ok")
                 except Exception:  # noqa: BLE001
                     pass
                 ctx.count("exercise_facade_calls")
@@ -280,6 +283,9 @@ def finalize(merged, tier):
     }
     if c.get("opcode_entries", 0) < 200 or c.get("opcode_values_checked", 0) != 256:
         merged["inconclusive"].append("enumeration walk incomplete: %r" % c)
+    for k in ("exercise_attaches_ok", "exercise_constructions_ok", "exercise_facade_calls_ok"):
+        if c.get(k, 0) < 20:
+            merged["inconclusive"].append("usage phase did not really use the library: %s=%d" % (k, c.get(k, 0)))
     return extra
 
 
